@@ -1,4 +1,4 @@
-module spike6
+module spike7
 
 go 1.23
 
